@@ -7,6 +7,8 @@ import (
 	"sync"
 
 	pkgErrors "github.com/pkg/errors"
+
+	"github.com/liftbridge-io/liftbridge/server/verifhook"
 )
 
 // ErrCommitLogReadonly is returned when the end of a readonly CommitLog has
@@ -324,6 +326,9 @@ LOOP:
 }
 
 func (r *committedReader) waitForHW(ctx context.Context, hw int64) error {
+	if verifhook.Enabled {
+		verifhook.Point("reader.beforeWaitHW", hw) // nolint: errcheck
+	}
 	wait := r.cl.waitForHW(r, hw)
 	select {
 	case <-r.cl.closed:
@@ -349,6 +354,9 @@ func (l *commitLog) newReaderCommitted(offset int64) (contextReader, error) {
 		segments = l.Segments()
 		hwSeg    *segment
 	)
+	if verifhook.Enabled {
+		verifhook.Point("reader.newCommitted.afterHW", hw) // nolint: errcheck
+	}
 
 	// If offset exceeds HW, wait for the next message. This also covers the
 	// case when the log is empty.
